@@ -54,7 +54,7 @@ def dataclass_fields(m, clsname, ev):
     return out
 
 
-def eval_selector(chk, text_, namespaces=None, log_errors=None):
+def eval_selector(chk, text_, namespaces=None, log_errors=None, sheet_namespaces=None):
     """Selector._setSelectorText evaluated on `text_`. Returns a dict: wellformed (committed), seq
     [(type, value)], specificity, element, text (what do_css_Selector writes for the committed
     sequence), errors."""
@@ -99,6 +99,13 @@ def eval_selector(chk, text_, namespaces=None, log_errors=None):
     me._normalize = norm
     intr_util['Base'] = Record(_prods=Record(FUNCTION='FUNCTION'), _normalize=norm)
     me._splitNamespacesOff = lambda t: (t[0], NS(t[1])) if isinstance(t, tuple) else (t, NS())
+    if sheet_namespaces is not None:
+        # attached: the list the selector belongs to sits in a rule of a sheet; the sheet's mapping has a length
+        # like _Namespaces (an empty one is falsy) and answers None for an unknown prefix
+        sheet = Record(namespaces=NS(sheet_namespaces))
+        me.parent = me._parent = Record(parentRule=Record(parentStyleSheet=sheet, _parentStyleSheet=sheet), _parentRule=None)
+        me._parent._parentRule = me._parent.parentRule
+        me.own_namespaces = sheet.namespaces
     me._tokenize2 = lambda t: iter(toks) if toks else None
     me._tempSeq = lambda readonly=False: seq_model(repo, readonly)
 
